@@ -178,11 +178,31 @@ def check_chain(v, p, a, b, geo):
     return nvw
 
 
+def trace_decoy(case, a, b):
+    """Another layered ice with the same boundaries but other index profiles, traced first between the same endpoints
+    (same process): must leave no trace in what the case's own ice reports."""
+    from pyrex.custom.layered_ice import LayeredRayTracer
+    spec = dict(case["ice"], layers=[dict(l) for l in case["ice"]["layers"]])
+    for l in spec["layers"]:
+        if l["kind"] == "antarctic":
+            l["n0"], l["k"], l["a"] = l.get("n0", 1.78) * 0.97, l.get("k", 0.43) * 0.8, l.get("a", 0.0132) * 1.3
+        elif l["kind"] == "uniform":
+            l["n"] = l["n"] * 0.95 + 0.02
+    try:
+        for q in LayeredRayTracer(a, b, gen.make_ice(spec)).solutions:
+            q.path_length, q.tof
+    except Exception:       # noqa: BLE001 -- the decoy medium is not what this case decides
+        pass
+
+
 def run_stack(case, v):
     from pyrex.custom.layered_ice import LayeredRayTracer
     ice = gen.make_ice(case["ice"])
     a, b = np.array(case["from"], float), np.array(case["to"], float)
     geo = {"from": a.tolist(), "to": b.tolist(), "layers": [[l["kind"][:3], l["range"]] for l in case["ice"]["layers"]]}
+    if int(a[0] * 1e6) % 2 == 0:
+        trace_decoy(case, a, b)
+        geo["traced_after_a_medium_with_the_same_boundaries"] = True
     sols = list(LayeredRayTracer(a, b, ice).solutions)
     for p in sols:
         check_chain(v, p, a, b, geo)
@@ -203,6 +223,9 @@ def run_split(case, v):
     else:
         UT = type("UT", (rt.UniformRayTracer,), {"max_reflections": 1})
         ref = [p for p in UT(a, b, full).solutions if len(p._points) == 2 or p.emitted_direction[2] > 0]      # direct + surface reflection (the bottom has no index)
+    if int(a[0] * 1e6) % 2 == 0:
+        trace_decoy(case, a, b)
+        geo["traced_after_a_medium_with_the_same_boundaries"] = True
     lay = list(LayeredRayTracer(a, b, ice).solutions)
     for q in lay:
         check_chain(v, q, a, b, geo)
